@@ -126,14 +126,18 @@ impl Timestamp {
                 self.to_utc()?.format_into(w, RFC1123)?;
             }
             TimestampFormat::EpochSeconds => {
+                // exact decimal text: seconds, then the fraction without trailing zeros
+                // (floating point arithmetic gives texts like `-28.798000000000002`)
                 let val = self.0.unix_timestamp_nanos();
-
-                #[allow(clippy::cast_precision_loss)] // FIXME: accurate conversion?
-                {
-                    let secs = (val / 1_000_000_000) as f64;
-                    let nanos = (val % 1_000_000_000) as f64 / 1_000_000_000.0;
-                    let ts = secs + nanos;
-                    write!(w, "{ts}")?;
+                let sign = if val < 0 { "-" } else { "" };
+                let abs = val.unsigned_abs();
+                let secs = abs / 1_000_000_000;
+                let nanos = abs % 1_000_000_000;
+                if nanos == 0 {
+                    write!(w, "{sign}{secs}")?;
+                } else {
+                    let frac = format!("{nanos:09}");
+                    write!(w, "{sign}{secs}.{}", frac.trim_end_matches('0'))?;
                 }
             }
         }
